@@ -5,6 +5,7 @@ package main
 // lists, and mutants of the templates found in the repository's own tests.
 
 import (
+	"fmt"
 	"math/rand"
 	"os"
 	"path/filepath"
@@ -232,3 +233,33 @@ func init() {
 	generators["fuzztext"] = genFuzzText
 	generators["mutants"] = genMutant
 }
+
+
+// weirdpairs enumerates (not samples) every ordered pair of the binding names under every binary construct.
+var pairForms = []string{
+	"{%% if %s contains %s %%}y{%% endif %%}", "{%% if %s == %s %%}y{%% endif %%}", "{%% if %s < %s %%}y{%% endif %%}", "{{ %s[%s] }}",
+	"{{ %s | concat: %s | size }}", "{{ %s | default: %s }}", "{%% case %s %%}{%% when %s %%}w{%% endcase %%}", "{{ %s | append: %s }}",
+	"{{ %s | plus: %s }}", "{{ %s | join: %s }}", "{{ %s | map: %s }}", "{{ %s | sort: %s }}", "{%% for i in %s limit: %s %%}{{ i }}{%% endfor %%}",
+	"{{ %s | split: %s }}", "{{ %s | slice: %s }}", "{{ %s | truncate: %s }}", "{{ %s | divided_by: %s }}", "{{ %s | date: %s }}", "{{ %s | replace: %s, %[1]s }}",
+	"{%% assign v = %s | uniq %%}{{ v | sort_natural: %s }}", "{%% tablerow i in %s cols: %s %%}{{ i }}{%% endtablerow %%}", "{{ (%s..%s) | first }}",
+}
+
+var pairNames = []string{"st", "pst", "nilp", "nils", "pn", "ps", "tm", "by", "ms", "mik", "mif", "af", "u8", "i64", "u64", "f32", "big", "neg0", "dr", "drnil", "drdr",
+	"arr", "strs", "ints", "m", "e", "s", "u", "n", "z", "f", "t", "nl", "nested", "ptrs", "pstrs", "pstructs", "anyptrs", "mptr", "parr", "pmap", "st.C", "st.D", "arr[4]", "nested.a"}
+
+func genWeirdPairs(r *rand.Rand, i int) J {
+	n := len(pairNames)
+	total := n * n * len(pairForms)
+	if i >= total {
+		return nil
+	}
+	f := pairForms[i%len(pairForms)]
+	a := pairNames[(i/len(pairForms))%n]
+	b := pairNames[i/len(pairForms)/n]
+	if strings.Contains(f, "..") && (a == "i64" || b == "i64" || a == "u64" || b == "u64" || a == "big" || b == "big") {
+		return nil // a range the size of the 64-bit integers is allowed to take for ever
+	}
+	return J{"kind": "render", "src": bs(fmt.Sprintf(f, a, b)), "env": []any{}, "weird": true, "nospec": true, "tm": "TraceC01"}
+}
+
+func init() { generators["weirdpairs"] = genWeirdPairs }
